@@ -19,6 +19,18 @@ add("C12", "Hypothesis metamorphic testing over threshold grids + reference-mode
     "All grid thresholds (every k/n boundary present) are run with fresh Shapers and all ordered pairs compared for key/shape monotonicity and equal figures of surviving alternatives; t=0 and t=1 are compared with the reference profiler.", "DESIGN.md 2/C12")
 add("C13", "Hypothesis metamorphic testing, one option flipped at a time, per-option relation on canonical documents",
     "Two fresh Shapers differing in exactly one argument; the relation the property documents for that option is checked on the parsed outputs (structure identity, '?'->'*', {k>1}->'+', relaxation only below 100 %, disjunction over the same alternatives, ratio rounding vs the exact fraction).", "DESIGN.md 2/C13")
+add("C03", "Hypothesis generators (schema-consistent graphs) + independent ShEx validator oracle + twin-run metamorphic relation",
+    "Every (instance, shape) pair of every generated schema-consistent graph is validated against the parsed ShExC text by an independent ShEx validator (greatest fixed point over shape references); '?' admissibility is checked against the reference profiler and the mode-off twin run must report the cardinalities the mode-on run cites as original.", "DESIGN.md 2/C03")
+add("C04", "Hypothesis generators over adversarial graphs x accepted configurations; oracle = no exception / no hang, crashes bucketed by (type, innermost frame)",
+    "Crash-freedom over generated graphs, configurations, output formats, calls and input syntaxes; known crash buckets are excluded by signature inside the property so that the search continues behind them.", "DESIGN.md 2/C04")
+add("C05", "Hypothesis generators + independent grammar-based ShExC reader and rdflib/SHACL graph queries as validity oracle",
+    "Every generated document must parse under an independent reader written from the ShExC grammar, have a functional prefix map, unique labels and only defined references; SHACL documents must parse as Turtle with declared node shapes and exactly one path per property shape.", "DESIGN.md 2/C05")
+add("C07", "Hypothesis layout generator + bounded-exhaustive separator placements; oracle = abstract triples (rdflib cross-checks the generator); out-of-dialect probes",
+    "Documents are laid out from abstract triples by drawn choices (grouping, IRI spellings, separators at every token boundary, comments); all blank/newline placements of pinned documents of <=12 tokens are enumerated; the real streaming reader must yield exactly the abstract triples.", "DESIGN.md 2/C07")
+add("C14", "Hypothesis metamorphic testing: G with / without inverse_paths and reverse(G) without",
+    "Three runs per generated graph compared on canonical documents: outgoing constraints and instance counts unchanged, incoming constraints equal to the outgoing constraints of the reversed graph (keys, cardinalities, figures, comment facts).", "DESIGN.md 2/C14")
+add("C16", "Hypothesis generators + reference-model oracle on the restricted selection / restricted triples + differential run on the filtered document",
+    "instances_cap against the reference profiler on the first min(k,|C|) instances in document order (and text equality with the uncapped run when the cap does not bite); namespaces_to_ignore against the reference profiler on the filtered triples and a differential run whose class membership comes from the full graph.", "DESIGN.md 2/C16")
 
 ALL = ["C%02d" % i for i in range(1, 21)]
 def main():
